@@ -31,7 +31,7 @@ def gen_scaffolds(rng, bpt, fasta_backed=True, n=None, hap_prefix=None):
             name = f"{hap_prefix}_scaffold_{k + 1}"
         else:
             name = rng.choice(["SCAFFOLD_", "scaffold_", "ctg", "s"]) + str(k + 1)
-        texels = rng.choice([1, 3, 4, 6, 8, 10, 14, 20, 30])
+        texels = rng.choice([1, 3, 4, 6, 8, 10, 14, 20, 30, 45])
         target = max(1, int(texels * bpt + rng.randint(-int(bpt) // 2, int(bpt) // 2)))
         if rng.random() < 0.1:
             target = max(1, int(bpt * rng.random()))  # sub-texel scaffold
@@ -225,6 +225,39 @@ def gen_map(rng, scaffolds, bpt, edits=None, tagging=True):
     return {"bpt": bpt, "groups": groups}
 
 
+def tag_haplotypes(rng, m):
+    """Two-haplotype map: groups are painted and tagged Hap1/Hap2 by the
+    haplotype of their first piece; Pretext lists homologues next to each other."""
+    groups = m["groups"]
+
+    def hap_of(g):
+        return g["pieces"][0][0].split("_")[0]
+
+    h1 = [g for g in groups if hap_of(g) == "Hap1"]
+    h2 = [g for g in groups if hap_of(g) == "Hap2"]
+    paint = min(len(h1), len(h2), rng.choice([1, 2, 3]))
+    order = []
+    for k in range(paint):
+        for g, h in ((h1[k], "Hap1"), (h2[k], "Hap2")):
+            for p in g["pieces"]:
+                if p[0].split("_")[0] != h:
+                    continue
+            for p in g["pieces"]:
+                p[4][:] = ["Painted", h]
+            order.append(g)
+    extra = rng.random() < 0.3
+    if extra and order:
+        t = rng.choice(["X", "Z", "W"])
+        for p in order[0]["pieces"]:
+            p[4].append(t)
+    rest = [g for g in groups if g not in order]
+    for g in rest:
+        if rng.random() < 0.3:
+            for p in g["pieces"]:
+                p[4][:] = [hap_of(g)]
+    m["groups"] = order + rest
+
+
 def render_pretext_agp(m, gap=100):
     out = io.StringIO()
     out.write("##agp-version\t2.1\n")
@@ -254,15 +287,25 @@ def render_pretext_agp(m, gap=100):
 # ---------------------------------------------------------------------------
 
 
-def gen_workload(rng, fasta_backed=True, tagging=True):
+def gen_workload(rng, fasta_backed=True, tagging=True, haps=None):
     """{"bpt", "scaffolds", "map", "fasta" (if FASTA-backed), "tpf", "agp", "pretext_agp"} or None"""
     bpt = rng.choice([8.0, 10.0, 16.5, 23.116333, 40.0, 64.25])
-    scaffolds = gen_scaffolds(rng, bpt, fasta_backed=fasta_backed)
+    if haps is None:
+        haps = rng.random() < 0.25
+    if haps:
+        scaffolds = []
+        n = rng.choice([1, 2, 3])
+        for h in ("Hap1", "Hap2"):
+            scaffolds += gen_scaffolds(rng, bpt, fasta_backed=fasta_backed, n=n, hap_prefix=h)
+    else:
+        scaffolds = gen_scaffolds(rng, bpt, fasta_backed=fasta_backed)
     if fasta_backed:
         merge_adjacent_fragments(scaffolds)
-    m = gen_map(rng, scaffolds, bpt, tagging=tagging)
+    m = gen_map(rng, scaffolds, bpt, tagging=tagging and not haps)
     if m is None:
         return None
+    if haps:
+        tag_haplotypes(rng, m)
     w = {
         "bpt": bpt,
         "scaffolds": scaffolds,
